@@ -158,6 +158,15 @@ def run_unit(unit, repo, workdir, variables=None, rlimit=None, suffix=''):
             continue
         if tag is None:
             tag = f'{unit}.{reg[2]}.body'
+        # proof scaffolding (soft-anchored hints / invariants) that could not be placed: the failure
+        # may be ours, not the code's -> undecided, never a violation
+        skipped = [p for p in gen.pieces if p.get('edits', {}).get('hint_skipped') or p.get('edits', {}).get('closure_spec_skipped')]
+        if any(reg[2] in p['label'].replace('::', '::') or p['label'].endswith('#' + reg[2]) for p in skipped):
+            res.tooling.append(f'proof hints could not be placed in {reg[2]} (code shape changed); failure "{msg}" is undecided')
+            ob = res.obligations.setdefault(tag, {'fn': reg[2], 'line': prim[0]['line_start'], 'contract': ''})
+            ob['status'] = 'undecided'
+            ob['msg'] = msg
+            continue
         ob = res.obligations.setdefault(tag, {'fn': reg[2], 'line': prim[0]['line_start'], 'contract': ''})
         ob['status'] = 'failed'
         ob['msg'] = msg + ' @ generated line %d: %s' % (prim[0]['line_start'], gen.lines[prim[0]['line_start'] - 1].strip()[:200])
